@@ -1,7 +1,7 @@
 from typing import Optional, Dict
 
 from rsocket.exceptions import RSocketFrameFragmentDifferentType
-from rsocket.frame import FragmentableFrame, PayloadFrame, is_blank
+from rsocket.frame import FragmentableFrame, PayloadFrame, RequestChannelFrame, is_blank
 
 
 class FrameFragmentCache:
@@ -33,8 +33,10 @@ class FrameFragmentCache:
         if current_frame_from_fragments is None:
             current_frame_from_fragments = next_fragment
 
-        if isinstance(current_frame_from_fragments, PayloadFrame):
+        if isinstance(current_frame_from_fragments, (PayloadFrame, RequestChannelFrame)):
             current_frame_from_fragments.flags_complete = next_fragment.flags_complete
+
+        if isinstance(current_frame_from_fragments, PayloadFrame):
             current_frame_from_fragments.flags_next = next_fragment.flags_next
 
         if current_frame_from_fragments is not next_fragment:
